@@ -29,6 +29,8 @@ type DepositCase struct {
 type DepBatch struct {
 	Items   []DepStep `json:"items"`
 	Restart bool      `json:"restart"`
+	// Reimport: after this batch's block the chain is restarted from its exported state
+	Reimport bool `json:"reimport,omitempty"`
 	SameBlk bool      `json:"same_block"` // deliver in the same consensus block as the previous batch
 }
 
@@ -280,6 +282,9 @@ func genDepositHistory(t *rapid.T) DepositCase {
 		}
 		c.Batches = append(c.Batches, b)
 	}
+	for i := range c.Batches {
+		c.Batches[i].Reimport = rapid.IntRange(0, 7).Draw(t, "reimport") == 0
+	}
 	return c
 }
 
@@ -449,6 +454,17 @@ func runDepositHistory(c DepositCase) Outcome {
 			f.sim.Node = n2
 			o.Classes = append(o.Classes, "restart")
 		}
+		if batch.Reimport {
+			if fl := flush(); fl != nil {
+				o.Fail = fl
+				return o
+			}
+			if err := f.sim.Reimport(); err != nil {
+				o.Fail = failf("re-import", "re-import-failed", "batch %d: %v", bi, err)
+				return o
+			}
+			o.Classes = append(o.Classes, "reimported")
+		}
 	}
 	if len(pendingTxs) > 0 {
 		if fl := flush(); fl != nil {
@@ -494,6 +510,6 @@ func TestC03_History(t *testing.T) {
 	RunProp(t, Prop[DepositCase]{
 		ID: "C03", Name: "history", Quick: 640, Thor: 10_000,
 		Gen: genDepositHistory, Run: runDepositHistory,
-		Rule: "histories of 2-8 MsgNewDeposits transactions (1-16 items each, repeated items, mutated items, several batches per consensus block, restarts between blocks) through FinalizeBlock; model: a batch succeeds iff every item is acceptable and no (txid, output) was credited before or repeats inside it; every deposit system transaction found in later execution payloads must have been credited by the model exactly once, in order, with amount+tax=value and the tax formula; HasDeposited equals the model set; non-trivial = history contains an acceptable item",
+		Rule: "histories of 2-8 MsgNewDeposits transactions (1-16 items each, repeated items, mutated items, several batches per consensus block, process restarts and restarts from an exported state between blocks) through FinalizeBlock; model: a batch succeeds iff every item is acceptable and no (txid, output) was credited before or repeats inside it; every deposit system transaction found in later execution payloads must have been credited by the model exactly once, in order, with amount+tax=value and the tax formula; HasDeposited equals the model set; non-trivial = history contains an acceptable item",
 	})
 }
